@@ -24,3 +24,20 @@ build_cli() {
   ( cd "$REPO/cmd/atlas" && GOTOOLCHAIN=local go1.26.8 build -tags verif -o "$BUILD/atlas-verif" . ) 2>> "$BUILD/cli-build.log" && return 0
   echo "harness: CLI build failed (see below)" >&2; tail -n 40 "$BUILD/cli-build.log" >&2; return 2
 }
+
+# C20: the simulator built against a scratch copy of the repository in which the map-range
+# sites were rewritten to a seeded order (see maprw). /repo itself is never modified.
+build_seamed() {
+  local scratch=${VERIF_SCRATCH:-/tmp}/seamed-$$
+  rm -rf "$scratch"; mkdir -p "$scratch/atlas" || return 2
+  ( cd "$ROOT/maprw" && GOTOOLCHAIN=local go build -o "$BUILD/maprw" . ) 2> "$BUILD/maprw-build.log" || { echo "harness: maprw build failed" >&2; tail -n 20 "$BUILD/maprw-build.log" >&2; rm -rf "$scratch"; return 2; }
+  ( cd "$REPO" && rsync -a --exclude '*_test.go' --exclude testdata go.mod go.sum sql schemahcl "$scratch/atlas/" ) || { rm -rf "$scratch"; return 2; }
+  ( cd "$scratch/atlas" && GOTOOLCHAIN=local "$BUILD/maprw" "$scratch/atlas" "$BUILD/map-sites.json" ./sql/... ./schemahcl/... ) > "$BUILD/maprw.log" 2>&1 || { echo "harness: map-range rewrite failed" >&2; tail -n 20 "$BUILD/maprw.log" >&2; rm -rf "$scratch"; return 2; }
+  sed "s#=> /repo#=> $scratch/atlas#" "$ROOT/sim/go.mod" > "$BUILD/seamed.mod"; cp "$ROOT/sim/go.sum" "$BUILD/seamed.sum"
+  ( cd "$ROOT/sim" && GOTOOLCHAIN=local go build -modfile="$BUILD/seamed.mod" -tags "verif seamed" -o "$BUILD/verifsim-seamed" ./cmd/verifsim ) 2> "$BUILD/seamed-build.log"
+  local rc=$?
+  rm -rf "$scratch"
+  if [ $rc -ne 0 ]; then echo "harness: seamed simulator build failed" >&2; tail -n 40 "$BUILD/seamed-build.log" >&2; return 2; fi
+  export VERIF_MAP_SITES=$BUILD/map-sites.json
+  cat "$BUILD/maprw.log"
+}
